@@ -1709,7 +1709,10 @@ impl<'a> Tycker<'a> {
                 self.statics.types_pre.replace_existing(id, ty);
             }
         }
-        let missing = resolver.into_missing();
+        let mut missing = resolver.into_missing();
+        // sorted by identifier so far, i.e. by key spaces that depend on what the
+        // process checked before: report the holes in site order
+        missing.sort_by_key(|fill| self.statics.fills[fill]);
         if !missing.is_empty() {
             // keep running tycker even after unsuccessful solving hole
             let _: ResultKont<()> =
